@@ -1067,7 +1067,7 @@ func gen(c *core.Ctx) error {
 		f    func(*core.Ctx)
 	}{{"msg", genMessageLevel}, {"quoted", genQuotedValues}, {"audit", genAuditCases}, {"rawbody", genRawBody},
 		{"emptyframes", genEmptyFrameRuns}, {"wire", genWire}, {"text", genText}, {"sinful", genSinful},
-		{"version", genVersion}, {"addr", genAddr}, {"hs", genHS}, {"sci", genSci}} {
+		{"version", genVersion}, {"addr", genAddr}, {"passsock", genPassSock}, {"watch", genWatch}, {"hs", genHS}, {"sci", genSci}} {
 		if want(g.name) {
 			g.f(c)
 		}
